@@ -77,6 +77,13 @@ def run_group(hists, vars_, tag, schedule=None, switch=None):
                 state["done"][i] = True
                 cond.notify_all()
 
+    # groups are independent experiments: claripy's process-wide simplification cache (keyed by expression, but filled
+    # with results that depend on per-thread state) would carry results of earlier groups into this one
+    try:
+        import claripy.algorithm.simplify as _cs
+        _cs.simplification_cache.clear()
+    except Exception:  # noqa: BLE001
+        pass
     old = sys.getswitchinterval()
     if switch:
         sys.setswitchinterval(switch)
